@@ -1,6 +1,19 @@
 package graphql
 
-import "reflect"
+import (
+	"reflect"
+	"sort"
+)
+
+// sortedTypeNames returns the names of a type map in a fixed order.
+func sortedTypeNames(typeMap TypeMap) []string {
+	names := make([]string, 0, len(typeMap))
+	for name := range typeMap {
+		names = append(names, name)
+	}
+	sort.Strings(names)
+	return names
+}
 
 type SchemaConfig struct {
 	Query        *Object
@@ -115,8 +128,8 @@ func NewSchema(config SchemaConfig) (Schema, error) {
 	if schema.implementations == nil {
 		schema.implementations = map[string][]*Object{}
 	}
-	for _, ttype := range schema.typeMap {
-		if ttype, ok := ttype.(*Object); ok {
+	for _, typeName := range sortedTypeNames(schema.typeMap) {
+		if ttype, ok := schema.typeMap[typeName].(*Object); ok {
 			for _, iface := range ttype.Interfaces() {
 				impls, ok := schema.implementations[iface.Name()]
 				if impls == nil || !ok {
@@ -157,8 +170,8 @@ func (gq *Schema) AddImplementation() error {
 	// Keep track of all implementations by interface name.
 	gq.implementations = map[string][]*Object{}
 	gq.possibleTypeMap = nil
-	for _, ttype := range gq.typeMap {
-		if ttype, ok := ttype.(*Object); ok {
+	for _, typeName := range sortedTypeNames(gq.typeMap) {
+		if ttype, ok := gq.typeMap[typeName].(*Object); ok {
 			for _, iface := range ttype.Interfaces() {
 				impls, ok := gq.implementations[iface.Name()]
 				if impls == nil || !ok {
